@@ -29,6 +29,11 @@ fix round 2  : the form (literal / numpy scalar / ndarray / tensor / variable) o
                finding (quantized_linear handed its qnoise_factor variable out) has no special
                handling left: its return is a `config_forms` / `keras_outcome` disagreement plus
                `rebuild_raises` (Keras route) and `rebuilt_shares_variable` (dictionary routes).
+round 2      : forms held by the quantizer rebuilt through a DICTIONARY route vs the model's `rebuiltForms`
+               (`Form.array` = numpy array of >= 1 dimension: what `isinstance(alpha, np.ndarray)` reads);
+               every numeric option as size-1 / per-channel array, list, tuple (forms stream); stream
+               `signature`: parameters of the LIVE constructor signatures that the lattice does not know
+               are swept with guessed typed values and judged model-free.
 """
 import inspect
 import os
@@ -148,6 +153,20 @@ def _first_diff(x, ya, yb):
     return {}
 
 
+def _obs_first_diff(x, oa, ob):
+  """what the first differing observation looks like (a raised exception, or a probe value)"""
+  for k in oa:
+    if oa[k] != ob.get(k):
+      a, b = oa[k], ob.get(k)
+      if isinstance(a, tuple) and a and a[0] == "raises" or isinstance(b, tuple) and b and b[0] == "raises":
+        return {"observation": k, "original": a if isinstance(a, tuple) else "returns",
+                "rebuilt": b if isinstance(b, tuple) else "returns"}
+      if k[0] == "y" and isinstance(a, bytes) and isinstance(b, bytes):
+        return dict(_first_diff(x, a, b), observation=k)
+      return {"observation": k}
+  return {}
+
+
 def _keras_real_outcome(tf, q, names):
   """what the Keras pair does with the configuration of q, classified like the model's
   KerasOutcome: ok | serialize_raises | arrives_as_dict(keys)"""
@@ -157,8 +176,10 @@ def _keras_real_outcome(tf, q, names):
     return {"kind": "serialize_raises", "msg": str(e)[:120]}
   except Exception as e:  # pylint: disable=broad-except
     return {"kind": "serialize_raises:" + L.err_tag(e), "msg": str(e)[:120]}
-  keys = [k for k, v in ser.get("config", {}).items() if L.is_tensor_dict(v)]
-  return {"kind": "arrives_as_dict", "keys": keys} if keys else {"kind": "ok"}
+  tags = {k: L.tagged_dict(v) for k, v in ser.get("config", {}).items() if L.tagged_dict(v)}
+  if not tags:
+    return {"kind": "ok"}
+  return {"kind": "arrives_as_dict", "keys": list(tags), "tags": sorted(set(tags.values()))}
 
 
 def _world_stream(run, tier, Q, tf, K, reg, model_cls, base_recs, base_outs):
@@ -363,11 +384,11 @@ def _history_stream(run, tier, Q, tf, K, reg, model_cls, rng, xs):
         rec = {"key": key, "name": name, "hname": hname, "kw": kw}
         rec["attrs"] = L.attrs(q, names)
         rec["hidden"] = _stable_hidden(q, names)
-        rec["forms"] = [[k, L.form_of(getattr(q, k, None))] for k in names]
+        rec["forms"] = [[k, L.form_of2(getattr(q, k, None))] for k in names]
         try:
           cfg_real = q.get_config()
           rec["config"] = _cfg_canon(cfg_real)
-          rec["config_forms"] = [[k, L.form_of(v)] for k, v in cfg_real.items()]
+          rec["config_forms"] = [[k, L.form_of2(v)] for k, v in cfg_real.items()]
         except Exception as e:  # pylint: disable=broad-except
           run.violate("get_config_raises", {"class": name, "error": L.err_tag(e), "history": hname}, key, mirrored=False)
           continue
@@ -398,15 +419,17 @@ def _history_stream(run, tier, Q, tf, K, reg, model_cls, rng, xs):
             except Exception as e:  # pylint: disable=broad-except
               r["config"] = ["<raises %s>" % L.err_tag(e)]
             if route == "keras":
-              r["dict_attrs"] = [k for k in names if L.is_tensor_dict(getattr(q2, k, None))]
+              r["dict_attrs"] = [k for k in names if L.tagged_dict(getattr(q2, k, None))]
             r["shared"] = _shared_variables(tf, q, q2, names)
+            r["forms"] = [[k, L.form_of2(getattr(q2, k, None))] for k in names]
             o2 = L.observe(q2, hx, phases, grad=grad)
             r["kinds"] = sorted(L.obs_diff(o1, o2))
           except Exception as e:  # pylint: disable=broad-except
             r = {"err": L.err_tag(e), "msg": str(e)[:160]}
           rec["routes"][route] = r
         lines.append({"op": "history", "cls": name, "kw": L.enc_env(kw), "steps": msteps})
-        lines.append({"op": "keras_forms", "cls": name, "stored": rec["forms"]})
+        lines.append({"op": "keras_forms", "cls": name, "stored": rec["forms"],
+                      "nones": [k for k in names if getattr(q, k, 0) is None]})
         metas.append(rec)
   outs = core.run_driver("C09", lines)
   for n, rec in enumerate(metas):
@@ -420,20 +443,24 @@ def _judge_history(run, rec, o, keras_model, stream):
   tag = {k: v for k, v in key.items() if k not in ("class", "kw")}
   mirrored = True
   run.compared += 1
-  if "err" in o.get("construct", {}):
-    run.disagree(stream + ".construct", key, "ok", o["construct"]["err"])
-    return
-  after = o["after"]
-  if L.canon_env(list(rec["attrs"].items())) != L.canon_env(after["ok"]):
-    run.disagree(stream + ".fields", key, L.canon_env(list(rec["attrs"].items())), L.canon_env(after["ok"]))
-    mirrored = False
-  mh = after["hidden"]
-  if L.canon_env([kv for kv in rec["hidden"] if kv[0] in [m[0] for m in mh]]) != L.canon_env(mh):
-    run.disagree(stream + ".hidden", key, rec["hidden"], mh)
-    mirrored = False
-  if rec["config"] != L.canon_env(o["config"]):
-    run.disagree(stream + ".get_config", key, rec["config"], L.canon_env(o["config"]))
-    mirrored = False
+  # o is None: the VALUE of the option is outside the model (array-valued bits / integer / ...):
+  # only the form-level model (configForms / kerasOutcome / rebuiltForms) is tied, the clauses
+  # are judged model-free
+  if o is not None:
+    if "err" in o.get("construct", {}):
+      run.disagree(stream + ".construct", key, "ok", o["construct"]["err"])
+      return
+    after = o["after"]
+    if L.canon_env(list(rec["attrs"].items())) != L.canon_env(after["ok"]):
+      run.disagree(stream + ".fields", key, L.canon_env(list(rec["attrs"].items())), L.canon_env(after["ok"]))
+      mirrored = False
+    mh = after["hidden"]
+    if L.canon_env([kv for kv in rec["hidden"] if kv[0] in [m[0] for m in mh]]) != L.canon_env(mh):
+      run.disagree(stream + ".hidden", key, rec["hidden"], mh)
+      mirrored = False
+    if rec["config"] != L.canon_env(o["config"]):
+      run.disagree(stream + ".get_config", key, rec["config"], L.canon_env(o["config"]))
+      mirrored = False
   # the form every emitted configuration value is held in (model: `configForms` / `exportForm`):
   # a get_config that hands out a tf.Variable (or converts a value the model says it passes on)
   run.compared += 1
@@ -451,13 +478,26 @@ def _judge_history(run, rec, o, keras_model, stream):
     mirrored = False
   run.count("%s_keras_%s" % (stream, kr["kind"]))
   for route, mkey in (("from_config", "from_config"), ("get_quantizer", "get_quantizer"), ("keras", "from_config")):
-    r, m = rec["routes"][route], o[mkey]
+    r, m = rec["routes"][route], (o[mkey] if o is not None else None)
     run.compared += 1
     cause = None
     if route == "keras" and kr["kind"] != "ok":
-      cause = "config_holds_variable" if kr["kind"] == "serialize_raises" else "tensor_arrives_as_dict"
+      cause = ("config_holds_variable" if kr["kind"] == "serialize_raises" else
+               "tensor_arrives_as_dict" if "__tensor__" in kr.get("tags", []) else "ndarray_arrives_as_dict")
+    # forms held by the quantizer rebuilt through a dictionary route vs the model's rebuiltForms
+    if route != "keras" and "forms" in r:
+      run.compared += 1
+      mrf = dict(map(tuple, keras_model.get("rebuilt_forms", [])))
+      rrf = {k: f for k, f in r["forms"] if k in mrf}
+      if rrf != mrf:
+        bad = sorted(k for k in mrf if rrf.get(k) != mrf[k])
+        run.disagree("%s.route.%s.rebuilt_forms" % (stream, route), key,
+                     {k: rrf.get(k) for k in bad}, {k: mrf[k] for k in bad})
+        mirrored = False
     if "err" in r:
-      if cause is None and ("err" not in m or m["err"] != r["err"]):
+      if m is None:
+        pass
+      elif cause is None and ("err" not in m or m["err"] != r["err"]):
         run.disagree("%s.route.%s" % (stream, route), key, r["err"], m.get("err", "ok"))
         mirrored = False
       # one defect = one key: the history / form / route that exposed it goes into the detail,
@@ -471,7 +511,9 @@ def _judge_history(run, rec, o, keras_model, stream):
                                         "replay": "q=%s(**kw); <%s>; <rebuild by %s>" % (name, tag, route)},
                   mirrored=mirrored)
       continue
-    if cause is None:
+    if m is None:
+      pass
+    elif cause is None:
       if "err" in m:
         run.disagree("%s.route.%s" % (stream, route), key, "ok", m["err"])
         mirrored = False
@@ -512,8 +554,11 @@ def _judge_history(run, rec, o, keras_model, stream):
       clause = "same_output" if set(r["kinds"]) & {"output", "scale"} else "same_gradient"
       run.count("%s_differs_%s" % (stream, name))
       diff = [n for n in r["ok"] if r["ok"][n] != rec["attrs"].get(n)] if not cause else []
-      run.violate(clause, dict(k, field=k.get("field") or "+".join(diff) or "<no field differs>"),
+      f0 = dict(map(tuple, rec["forms"]))
+      fdiff = ["%s(%s->%s)" % (n, f0.get(n), f2) for n, f2 in r.get("forms", []) if f0.get(n) != f2] if not cause else []
+      run.violate(clause, dict(k, field=k.get("field") or "+".join(diff + fdiff) or "<no field differs>"),
                   {"kw": key["kw"], "differs": r["kinds"], "keras": kr, "route": route, **tag,
+                   "forms_changed": fdiff, "first_difference": r.get("first_difference"),
                    "replay": "q=%s(**kw); <%s>; q2=<rebuild by %s>; q2(x) vs q(x)" % (name, tag, route)},
                   mirrored=mirrored)
 
@@ -537,6 +582,26 @@ def _forms_stream(run, tier, Q, tf, K, reg, model_cls, xs):
       ctx = ctxs[-1] if ctxs else {}
       for fname, fv in L.forms(v, alt=(oi % 2) if tier == "quick" else None):
         cands.append((opt, v, ctx, fname, fv))
+    # array-valued forms (strengthening round 2): per-channel alpha of EVERY class that has the
+    # option (full model tie: the model's alpha may be a list), every other numeric option as
+    # size-1 / per-channel array, list, tuple (value outside the model: form-level tie only)
+    free = set()
+    aopts = dict(lat["options"])
+    if "alpha" in names:
+      aopts["alpha"] = [2.0]
+    for oi, (opt, vals) in enumerate(aopts.items()):
+      vs = [v for v in vals if isinstance(v, (int, float)) and not isinstance(v, bool)]
+      if not vs:
+        continue
+      ctxs = [c for c in lat["contexts"] if opt not in c]
+      ctx = ctxs[-1] if ctxs and opt != "alpha" else {}
+      afs = L.array_forms(vs[0])
+      if tier == "quick" and opt != "alpha":
+        afs = [afs[0], afs[1 + oi % 2], afs[3 + oi % 2]]
+      for fname, fv in afs:
+        cands.append((opt, vs[0], ctx, fname, fv))
+        if opt != "alpha":
+          free.add((opt, fname))
     if name == "quantized_bits":
       # the one option get_config converts whatever it is held in (np.asarray(...).tolist())
       ctx = {"bits": 4, "alpha": "auto_po2"}
@@ -563,14 +628,16 @@ def _forms_stream(run, tier, Q, tf, K, reg, model_cls, xs):
       kwl[opt] = v
       if L.observe(cls(**kwl), xs[:1], phases, grad=False) != o1:
         run.count("form_differs_from_literal")     # not a round-trip clause: counted only
-      rec = {"key": key, "name": name, "kw": kw}
+      rec = {"key": key, "name": name, "kw": kw, "free": (opt, fname) in free}
+      if rec["free"]:
+        run.count("form_value_outside_model")
       rec["attrs"] = L.attrs(q, names)
       rec["hidden"] = _stable_hidden(q, names)
-      rec["forms"] = [[k, L.form_of(getattr(q, k, None))] for k in names]
+      rec["forms"] = [[k, L.form_of2(getattr(q, k, None))] for k in names]
       try:
         cfg_real = q.get_config()
         rec["config"] = _cfg_canon(cfg_real)
-        rec["config_forms"] = [[k, L.form_of(v)] for k, v in cfg_real.items()]
+        rec["config_forms"] = [[k, L.form_of2(v)] for k, v in cfg_real.items()]
       except Exception as e:  # pylint: disable=broad-except
         run.violate("get_config_raises", {"class": name, "error": L.err_tag(e), "form": fname}, key, mirrored=False)
         continue
@@ -587,18 +654,110 @@ def _forms_stream(run, tier, Q, tf, K, reg, model_cls, xs):
           except Exception as e:  # pylint: disable=broad-except
             r["config"] = ["<raises %s>" % L.err_tag(e)]
           if route == "keras":
-            r["dict_attrs"] = [k for k in names if L.is_tensor_dict(getattr(q2, k, None))]
+            r["dict_attrs"] = [k for k in names if L.tagged_dict(getattr(q2, k, None))]
           r["shared"] = _shared_variables(tf, q, q2, names)
-          r["kinds"] = sorted(L.obs_diff(o1, L.observe(q2, xs[:1], phases, grad=False)))
+          r["forms"] = [[k, L.form_of2(getattr(q2, k, None))] for k in names]
+          o2 = L.observe(q2, xs[:1], phases, grad=False)
+          r["kinds"] = sorted(L.obs_diff(o1, o2))
+          if r["kinds"]:
+            r["first_difference"] = _obs_first_diff(xs[0], o1, o2)
         except Exception as e:  # pylint: disable=broad-except
           r = {"err": L.err_tag(e), "msg": str(e)[:160]}
         rec["routes"][route] = r
       lines.append({"op": "history", "cls": name, "kw": L.enc_env(kw), "steps": []})
-      lines.append({"op": "keras_forms", "cls": name, "stored": rec["forms"]})
+      lines.append({"op": "keras_forms", "cls": name, "stored": rec["forms"],
+                    "nones": [k for k in names if getattr(q, k, 0) is None]})
       metas.append(rec)
   outs = core.run_driver("C09", lines)
   for n, rec in enumerate(metas):
-    _judge_history(run, rec, outs[2 * n], outs[2 * n + 1], "forms")
+    _judge_history(run, rec, None if rec.get("free") else outs[2 * n], outs[2 * n + 1], "forms")
+
+
+def _signature_stream(run, tier, Q, tf, reg, model_cls, xs):
+  """the option lattice derived from the LIVE constructor signature: every parameter of every
+  registered class must either have lattice values (qkv.qlattice.LATTICE) or be one of the two
+  build-only options; any other parameter - one the model does not know, typically a newly added
+  option - is swept with typed values guessed from its default / annotation / name, under every
+  context of the class and every context extended by one lattice option, and judged by the
+  model-free clauses: the rebuild must not raise, the rebuilt quantizer must hold the same
+  attributes (all of vars(q) a call does not rewrite) and give the same outputs / scale /
+  gradients on the probes.  Reports the concrete (class, option, value, context, route)."""
+  n_unknown = 0
+  for name, cls in reg.items():
+    lat = L.LATTICE.get(name, {"options": {}, "contexts": [{}]})
+    live = L.live_params(cls)
+    known_model = [p[0] for p in model_cls.get(name, {}).get("params", [])]
+    stochastic = name in STOCHASTIC
+    for pname, default, ann in live:
+      run.case(("signature", name, pname), nontrivial=pname not in L.BUILD_ONLY)
+      if pname in lat["options"] or pname in L.BUILD_ONLY:
+        run.count("signature_param_in_lattice" if pname in lat["options"] else "signature_param_build_only")
+        continue
+      n_unknown += 1
+      run.count("signature_param_swept_model_free")
+      if pname in known_model:
+        run.disagree("static.lattice_covers_model", {"class": name, "param": pname}, "no lattice values", "modelled option")
+      values = L.guess_values(pname, default, ann)
+      if tier != "quick":
+        values = values + [fv for v in values[:2] for _, fv in L.array_forms(v)[:2]]
+      n_out = n_attr = n_cases = 0
+      for ctx in L.sweep_contexts(name):
+        if n_out >= 3:
+          break               # three concrete behavioural witnesses per (class, option) are enough
+        for v in values:
+          kw = dict(ctx)
+          kw[pname] = v
+          try:
+            q = cls(**kw)
+          except Exception:  # pylint: disable=broad-except
+            run.count("signature_construct_raises")
+            continue
+          phases = (0, 1) if stochastic or kw.get("use_stochastic_rounding") else (0,)
+          o1 = L.observe(q, xs, phases, grad=True)
+          if _raises(o1):
+            run.count("signature_original_call_raises")
+            continue
+          n_cases += 1
+          p1 = L.public_state(q)
+          key = {"class": name, "option": pname, "stream": "signature"}
+          detail = {"kw": L.enc_env(kw), "value": repr(v), "context": L.enc_env(ctx)}
+          plain = not isinstance(v, (np.ndarray, list, tuple))
+          cfg, routes = _routes(Q, tf, cls, name, q)
+          for route, make in routes:
+            if route == "keras" and not plain:
+              continue
+            run.compared += 1
+            rep = "q=%s(**kw); q2=<rebuild by %s>" % (name, route)
+            try:
+              q2 = make()
+            except Exception as e:  # pylint: disable=broad-except
+              run.violate("rebuild_raises", dict(key, error=L.err_tag(e)),
+                          dict(detail, route=route, msg=str(e)[:160], replay=rep), mirrored=False)
+              continue
+            p2 = L.public_state(q2)
+            bad = sorted(a for a in set(p1) | set(p2) if p1.get(a) != p2.get(a) and a not in L.BUILD_ONLY_MIRRORS)
+            if bad and n_attr < 6:
+              n_attr += 1
+              run.violate("same_public_attributes", dict(key, attr="+".join(bad)),
+                          dict(detail, route=route, original={a: p1.get(a) for a in bad},
+                               rebuilt={a: p2.get(a) for a in bad}, replay=rep + "; vars(q2) vs vars(q)"),
+                          mirrored=False)
+            o2 = L.observe(q2, xs, phases, grad=True)
+            kinds = L.obs_diff(o1, o2)
+            if kinds:
+              n_out += 1
+              clause = "same_output" if kinds & {"output", "scale"} else "same_gradient"
+              fd = {}
+              for i, x in enumerate(xs):
+                for ph in phases:
+                  yk = "y%d_%d" % (ph, i)
+                  if not fd and o1.get(yk) != o2.get(yk):
+                    fd = _obs_first_diff(x, {yk: o1.get(yk)}, {yk: o2.get(yk)})
+              run.violate(clause, key, dict(detail, route=route, differs=sorted(kinds), first_difference=fd,
+                                            config=_cfg_canon(cfg), replay=rep + "; q2(x) vs q(x)"),
+                          mirrored=False)
+      run.count("signature_cases_%s.%s=%d" % (name, pname, n_cases))
+  run.extra["signature_parameters_outside_lattice"] = n_unknown
 
 
 def run(run: core.Run, tier: str):
@@ -623,7 +782,11 @@ def run(run: core.Run, tier: str):
       "quick); history stream = default + contexts + 4 seeded single-option configurations per class x "
       "{call2, stp, call_stp_call, uqf, variables_call_uqf, uqf_tensor} (every second one for non-default "
       "configurations in quick); forms stream = first value of every numeric/boolean option x numpy "
-      "scalar (alternating widths in quick), 0-d ndarray, tf.constant, int/float substitutions")
+      "scalar (alternating widths in quick), 0-d ndarray, tf.constant, int/float substitutions; array forms = "
+      "alpha of every class that has it x {ndarray[1], ndarray[6], ndarray[1,6] float64, list[1], tuple[6]}, "
+      "every other numeric option x 3 of these 5 (alternating; all in thorough), judged only if the original "
+      "accepts the form; signature stream = every live constructor parameter outside the lattice (none on "
+      "the unchanged tree) x guessed values x (contexts + contexts extended by one lattice option) x 3 routes")
   run.assumptions.append(
       "identical stored constructor arguments imply identical behaviour (__call__ reads nothing "
       "else); exercised by comparing outputs of rebuilt instances whose fields agree")
@@ -968,9 +1131,11 @@ def run(run: core.Run, tier: str):
   _history_stream(run, tier, Q, tf, K, reg, model_cls, rng, xs_all)
   t2 = time.time()
   _forms_stream(run, tier, Q, tf, K, reg, model_cls, xs_all)
+  t3 = time.time()
+  _signature_stream(run, tier, Q, tf, reg, model_cls, [xs_all[0], xs_all[2]])
   if os.environ.get("QKV_TIMING"):
-    print("C09 stream seconds: lattice %.0f world %.0f history %.0f forms %.0f"
-          % (t0 - t_start, t1 - t0, t2 - t1, time.time() - t2))
+    print("C09 stream seconds: lattice %.0f world %.0f history %.0f forms %.0f signature %.0f"
+          % (t0 - t_start, t1 - t0, t2 - t1, t3 - t2, time.time() - t3))
 
   # ------------------------------------------------------------------ malformed stream
   bad = [
